@@ -90,6 +90,11 @@ def gen_cases(ctx) -> List[Dict[str, Any]]:
                 cases.append(c)
     for b in ("well_behaved", "ignore_sigterm", "flood"):
         cases.append({"behaviour": b, "exit": "normal", "moment": "in_flight", "env": {"LOG_LEVEL": "ERROR"}})
+    # the same StdioClient object entered again after earlier uses
+    for b in (("well_behaved", "ignore_sigterm") if ctx.tier == "quick" else ("well_behaved", "ignore_sigterm", "never_read", "flood", "exit_at:2")):
+        for e in exits:
+            for uses in ((1, 2) if ctx.tier == "quick" else (1, 2, 4)):
+                cases.append({"behaviour": b, "exit": e, "moment": "after_response", "prior_uses": uses})
     # a second, healthy client of the same process must neither be disturbed by the exit nor disturb the accounting
     for b in (("well_behaved", "ignore_sigterm", "exit_at:2", "flood") if ctx.tier == "quick"
               else ("well_behaved", "ignore_sigterm", "exit_at:2", "flood", "never_read", "close_stdout", "sigterm_slow:1.4")):
@@ -151,6 +156,12 @@ def judge(ctx, case: Dict[str, Any], o: Dict[str, Any], remeasure) -> None:
                               f"context was left (only reaped later by the loop's child watcher)", case, o)
         if not o.get("pids"):
             ctx.violation("no_child_spawned", "no process was spawned", case)
+    if case.get("prior_uses"):
+        ctx.count("reused_client_sessions")
+        for u, rec in enumerate(o.get("prior") or []):
+            if rec.get("state_at_exit") not in (None, "no-child"):
+                ctx.violation("child_left_running", f"use #{u + 1} of a re-used client object: its child was in state "
+                              f"{rec.get('state_at_exit')!r} when that context was left", case, o)
     comp = o.get("companion")
     if case.get("companion"):
         ctx.count("companion_clients")
